@@ -40,7 +40,13 @@ func (c *Config) CountField(name string, opts ...Option) (int, error) {
 	}
 
 	if v, ok := c.fields.get(name); ok {
-		return v.Len(makeOptions(opts))
+		O := makeOptions(opts)
+		n, err := v.Len(O)
+		if err != nil {
+			// the setting is a reference that can not be evaluated
+			return n, convertErr(O, v, err, "array")
+		}
+		return n, nil
 	}
 	return -1, raiseMissing(c, name)
 }
